@@ -281,8 +281,8 @@ impl Property for C05 {
     }
     fn cases(&self, tier: Tier) -> u64 {
         match tier {
-            Tier::Quick => 400_000,
-            Tier::Thorough => 6_000_000,
+            Tier::Quick => 1_200_000,
+            Tier::Thorough => 12_000_000,
         }
     }
     fn required_labels(&self, _tier: Tier) -> Vec<&'static str> {
